@@ -107,7 +107,12 @@ def cases(tier, seed):
         for _ in range(k):
             px = gen.random_store(rng, 3, "symm", density=0.8, maxval=1)
             ins.append([[i, j, rng.choice([1, hi // 2, hi // 2 + 1, hi - 1, hi])] for i, j, _ in px])
-        yield "mg.merge", {"table": table, "mode": "symm", "inputs": ins, "cols": ["count"], "aggs": ["sum"], "bits": bits,
+        cols3 = ["count"]
+        if F_h("othercol", 3) == 1:
+            # the value that may not fit sits in ANOTHER column than `count` (which stays small)
+            cols3 = ["count", "x"]
+            ins = [[[i, j, 1, v] for i, j, v in px] for px in ins]
+        yield "mg.merge", {"table": table, "mode": "symm", "inputs": ins, "cols": cols3, "aggs": ["sum"] * len(cols3), "bits": bits,
                            "unsigned": unsigned, "buf": rng.choice([1, 3, 10 ** 6]), "order": list(range(k))}
     # (4) incompatible inputs of every kind
     base = T["two_fixed"]
@@ -128,7 +133,15 @@ def cases(tier, seed):
     }
     for kind, (tables, modes, nms) in kinds.items():
         for buf in (1, 10 ** 6):
-            yield "mg.incompat", {"kind": kind, "tables": tables, "modes": modes, "names": nms, "buf": buf}
+            yield "mg.incompat", {"kind": kind, "tables": tables, "modes": modes, "names": nms, "buf": buf,
+                                  "empty": [False] * len(tables)}
+        # an input WITHOUT pixels is as incompatible as any other: each input in turn empty; and next to a compatible pair
+        for e in range(len(tables)):
+            yield "mg.incompat", {"kind": kind, "tables": tables, "modes": modes, "names": nms, "buf": 10,
+                                  "empty": [k == e for k in range(len(tables))]}
+        if len(tables) == 2:
+            yield "mg.incompat", {"kind": kind, "tables": [tables[0], tables[1], tables[0]], "modes": [modes[0], modes[1], modes[0]],
+                                  "names": [nms[0], nms[1], nms[0]], "buf": 10, "empty": [False, True, False]}
 
 
 def nontrivial(drv, case, obs):
